@@ -40,7 +40,7 @@ def octabox(sub=0):
     return dict(bitmap=bitmap, diag=(0, 255, 0, 255), subs=subs)
 
 
-def s_full(version=5, glat_version=3, compress=(), rtl=False, with_collision=True, subboxes=True, glyf=True, extra_attr_glyphs=0, dense_attrs=False, line_ends=False):
+def s_full(version=5, glat_version=3, compress=(), rtl=False, with_collision=True, subboxes=True, glyf=True, extra_attr_glyphs=0, dense_attrs=False, line_ends=False, cmap_edges=False):
     names = ['notdef', 'space', 'a', 'b', 'c', 'd', 'x', 'y', 'z', 'acute', 'grave', 'pseudo', 'astral', 'lig', 'e', 'f']
     glyphs = []
     for i, n in enumerate(names):
@@ -59,7 +59,9 @@ def s_full(version=5, glat_version=3, compress=(), rtl=False, with_collision=Tru
         g = dict(adv=adv, attrs=attrs, bbox=(0, 0 if adv else 500, 500, 700))
         if glat_version >= 3: g['octabox'] = octabox(2 if (subboxes and n in ('a', 'acute')) else (1 if subboxes and n == 'grave' else 0))
         glyphs.append(g)
-    cm = {0x20: 1, 0x61: G['a'], 0x62: G['b'], 0x63: G['c'], 0x64: G['d'], 0x65: G['e'], 0x66: G['f'], 0x301: G['acute'], 0x300: G['grave'], 0x10000: G['astral']}
+    cm = {0x20: 1, 0x61: G['a'], 0x62: G['b'], 0x63: G['c'], 0x64: G['d'], 0x65: G['e'], 0x66: G['f'], 0x301: G['acute'], 0x300: G['grave'], 0x10000: G['astral'], 0x10400: G['astral']}
+    if cmap_edges:      # first format 4 segment starts at U+0000, the closing segment FFFC..FFFF carries real mappings
+        cm.update({0: G['x'], 1: G['y'], 2: G['z'], 0xFFFC: G['x'], 0xFFFD: G['y'], 0xFFFE: G['z'], 0xFFFF: G['acute']})
     S = lambda *n: {G[k] for k in n}
     classes = [[G['x']], [G['y']], [G['z']], [G['x'], G['y']], [G['lig']],          # linear / output
                [G['a'], G['b']], [G['a'], G['b'], G['c'], G['d']]]                   # lookup / input
@@ -147,6 +149,15 @@ def feat_family():
     base['names'] = names
     base['langs'] = [(tag('a'), [(tag('q'), 3)]), (tag('bc'), [(tag('rs'), 3)]), (tag('def'), [(tag('tuv'), 3)]), (tag('ghij'), [(tag('wxyz'), 3)])]
     out['feat_shortids'] = base
+    # ids spread over the whole unsigned 32-bit range (ordering / search by id must be unsigned), referenced by language defaults;
+    # several low/high mixes so that any search shape meets a pair of ids that are >= 2^31 apart
+    lows = [0x00000002, 0x00000003, 0x00000004, 0x00000005, 0x41424344, 0x7FFFFFFF]; highs = [0x80000000, 0x90000000, 0xA0000001, 0xF7747269, 0xFFFFFFF0, 0xFFFFFFFE]
+    for nm, nl, nh in (('feat_highids', 3, 4), ('feat_highids_4_3', 4, 3), ('feat_highids_1_6', 1, 6), ('feat_highids_6_1', 6, 1)):
+        base = s_min(); ids = lows[:nl] + highs[:nh]
+        base['feats'] = [(fid, 300, 0, [(0, 301), (2, 301), (5, 301)]) for fid in ids]
+        base['names'] = {300: 'F', 301: 'S'}
+        base['langs'] = [(tag('lo'), [(ids[0], 2)]), (tag('hi'), [(ids[-1], 5), (ids[-2 if len(ids) > 1 else 0], 2)]), (tag('mix'), [(fid, 5) for fid in ids])]
+        out[nm] = base
     return out
 
 
@@ -154,7 +165,7 @@ def write_all(outdir):
     fonts = {'s_min': s_min(), 's_full': s_full(), 's_full_z': s_full(compress=('Silf', 'Glat')), 's_full_v3': s_full(version=3, glat_version=1, with_collision=False),
              's_full_v4': s_full(version=4, glat_version=2, with_collision=False), 's_full_rtl': s_full(rtl=True), 's_full_nosub': s_full(subboxes=False),
              's_full_zs': s_full(compress=('Silf',)), 's_full_zg': s_full(compress=('Glat',)),
-             's_full_noglyf': s_full(glyf=False), 's_full_extra': s_full(extra_attr_glyphs=3), 's_full_dense': s_full(dense_attrs=True), 's_full_le': s_full(line_ends=True), 's_full_rtl_le': s_full(rtl=True, line_ends=True)}
+             's_full_noglyf': s_full(glyf=False), 's_full_extra': s_full(extra_attr_glyphs=3), 's_full_dense': s_full(dense_attrs=True), 's_full_le': s_full(line_ends=True), 's_full_cmapedge': s_full(cmap_edges=True), 's_full_rtl_le': s_full(rtl=True, line_ends=True)}
     fonts.update(feat_family())
     index = {}
     for name, spec in fonts.items():
